@@ -386,6 +386,38 @@ def run_c13(ctx, fa):
 
 
 # ------------------------------------------------------------------------------------ C14
+def _rare_crc_texts(rnd):
+    """Texts whose CRC-64-AVRO has zero bytes at either end or a zero nibble pattern (1 in 256 each): found with a throw-away table
+    implementation that only SELECTS inputs - the expected value always comes from Rabin!FP in TLC."""
+    empty = 0xC15D213AA4D7A795
+    table = []
+    for i in range(256):
+        fp = i
+        for _ in range(8):
+            fp = (fp >> 1) ^ (empty & -(fp & 1))
+        table.append(fp)
+
+    def crc(b):
+        fp = empty
+        for x in b:
+            fp = (fp >> 8) ^ table[(fp ^ x) & 0xFF]
+        return fp
+    want = {"top": [], "low": [], "top2": []}
+    base = rnd.randint(0, 10 ** 6)
+    for i in range(base, base + 400000):
+        t = "text%d" % i
+        v = crc(t.encode())
+        if v >> 56 == 0 and len(want["top"]) < 6:
+            want["top"].append(t)
+        elif v & 0xFF == 0 and len(want["low"]) < 4:
+            want["low"].append(t)
+        elif v >> 48 == 0 and len(want["top2"]) < 1:
+            want["top2"].append(t)
+        if len(want["top"]) >= 6 and len(want["low"]) >= 4:
+            break
+    return want["top"] + want["low"] + want["top2"]
+
+
 def run_c14(ctx, fa):
     from . import mcheck
     from fastavro.schema import fingerprint, to_parsing_canonical_form
@@ -397,8 +429,10 @@ def run_c14(ctx, fa):
     advertised = sorted(sc.FINGERPRINT_ALGORITHMS)
     ctx.extra["advertised"] = advertised
     algs = ["CRC-64-AVRO"] * 6 + fixed + ["MD5", "SHA-256"]
-    unknown = ["crc-64-avro", "CRC64", "", "sha-256", "Md5", "SHA256 ", "rabin", "sha3", "MD-5", "whirlpool?", "CRC-64-AVRO "]
+    unknown = ["crc-64-avro", "CRC64", "", "sha-256", "Md5", "SHA256 ", "rabin", "sha3", "MD-5", "whirlpool?", "CRC-64-AVRO ",
+               "{md5}", "{}", "{0}", "SHA-{256}", "%s", "{algorithm}", "md5\n", "\u00e9"]
     texts = ["", "a", "\"int\"", "é", "😀", "\u0000", "a" * 300, "\U0010ffff" * 3]
+    texts += _rare_crc_texts(rnd)
     while len(texts) < n // 3:
         x = rnd.random()
         if x < 0.4:
@@ -416,6 +450,8 @@ def run_c14(ctx, fa):
         alg = rnd.choice(unknown) if rnd.random() < 0.12 else rnd.choice(algs)
         if i < len(algs):
             alg = algs[i]
+        elif 8 <= i % len(texts) < 19 and i < len(texts):
+            alg = "CRC-64-AVRO"          # the rare-CRC texts are always fingerprinted with the CRC
         c = {"id": "h%d" % i, "op": "fingerprint", "text": proj.cps(text), "alg": proj.cps(alg)}
         data = text.encode()
         c["known"] = [{"name": proj.cps(a), "hex": proj.cps(hashlib.new(a, data).hexdigest())} for a in fixed] \
